@@ -73,8 +73,27 @@ def run_history(world, spec, hist, store_kind, oracles, sigtab=None, opts=None, 
                     else:
                         probs.append(("C01", f"C01|raises|{real.exc}{'[' + real.code + ']' if real.code else ''}|{spec['key']}",
                                       _what(spec, hist, si, f"dds raised {real.exc} {real.code} {str(real.excobj)[:120]!r}, plain execution returned {ref.value!r}")))
+            # ---------------- C09: load sees the latest kept value, invalidates its readers, rejects read-before-produce
+            if "C09" in oracles:
+                must_reject = entry in spec.get("expect_error", {})
+                if must_reject or ref.exc == "RefLoadError":
+                    why = "reads the path before producing it" if must_reject else "loads a path that was never kept"
+                    if real.status == "ok":
+                        probs.append(("C09", f"C09|accepted|{spec['key']}|{entry}", _what(spec, hist, si, f"the evaluation {why} but returned {real.value!r}")))
+                    elif real.status != "dds":
+                        probs.append(("C09", f"C09|wrong_error|{real.exc}|{spec['key']}|{entry}", _what(spec, hist, si, f"the evaluation {why}: raised {real.exc} ({str(real.excobj)[:90]}) instead of a DDS error")))
+                    if real.status != "ok" and must_reject and real.log:
+                        probs.append(("C09", f"C09|ran_before_rejecting|{spec['key']}|{entry}", _what(spec, hist, si, f"user functions {real.log[:4]} ran before the rejection")))
+                elif ref.status == "ok":
+                    if real.status == "ok":
+                        if real.value != ref.value:
+                            probs.append(("C09", f"C09|stale|{spec['key']}|{entry}", _what(spec, hist, si, f"dds returned {real.value!r}, plain execution {ref.value!r}")))
+                    else:
+                        probs.append(("C09", f"C09|raises|{real.exc}{'[' + real.code + ']' if real.code else ''}|{spec['key']}|{entry}",
+                                      _what(spec, hist, si, f"dds raised {real.exc} {real.code} {str(real.excobj)[:120]!r}, plain execution returned {ref.value!r}")))
             # ---------------- C02: nothing recomputed unless its cone changed
-            if "C02" in oracles and store_kind != "noop" and ref.status == "ok" and real.status == "ok":
+            if ("C02" in oracles or "C09" in oracles) and store_kind != "noop" and ref.status == "ok" and real.status == "ok":
+                c2 = "C02" if "C02" in oracles else "C09"
                 cones = S.node_cones(spec, variant, entry, served=_served(prog, spec), pkg=prog.pkg)
                 kept_fns = set(cones)
                 allowed = {fn for fn, cs in cones.items() if any(c not in seen_cones for c in cs)}
@@ -82,7 +101,7 @@ def run_history(world, spec, hist, store_kind, oracles, sigtab=None, opts=None, 
                 extra = sorted(set(executed) - allowed)
                 if extra:
                     prev = "first evaluation" if si == 0 else f"after {hist[si - 1]}"
-                    probs.append(("C02", f"C02|recomputed|{_edit_kind(spec, vs, hist, si)}|{spec['key']}",
+                    probs.append((c2, f"{c2}|recomputed|{_edit_kind(spec, vs, hist, si)}|{spec['key']}",
                                   _what(spec, hist, si, f"kept function(s) {extra} executed although their dependency cone was evaluated before on this store (log {real.log})")))
                 for cs in cones.values():
                     seen_cones.update(cs)
